@@ -12,9 +12,10 @@ import ast
 from ..core import rule, AnalysisError
 from ..engine import cfg as cfgmod, flow
 from ..engine import pattern as P
-from ..engine.facts import dotted, const, src, walk_func, enclosing_stmt
+from ..engine.facts import dotted, const, src, walk_func, enclosing_stmt, ancestors
 from . import skeletons as sk
 from . import c04  # strict-emission (imported names precede the context) is registered for C07 there
+from . import c05  # attribute-pieces (file="${...}" values) is registered for C07 there
 from .common import calls, stmt_nodes, param_names, pn, access_paths, assigned_from
 
 
@@ -201,3 +202,78 @@ def include_args(ctx):
             if "_include_file(" in e[1].literal() and len(e[1].holes()) == 2:
                 ok = True
     ctx.check(ok, "emitted-args", "mako/codegen.py (visitIncludeTag)", "args= of <%include> are not passed to _include_file", "args forwarded as keyword arguments")
+
+
+@rule("C07.memo-keys", min_instances=4)
+def memo_keys(ctx):
+    """what is memoised under a key depends only on what the key holds: get_namespace keys on (calling namespace, uri), adjust_uri on (uri, base), and the generated module stores and reads its <%namespace>s under the same (module, name) key"""
+    db = ctx.db
+    gn = db.func("runtime.Namespace.get_namespace")
+    uri = pn(gn, 1)
+    keys = [s for s in walk_func(gn) if isinstance(s, ast.Assign) and isinstance(s.targets[0], ast.Name) and isinstance(s.value, ast.Tuple)]
+    used = [env_["k"][1] for _n, env_ in P.find(gn, "self.context.namespaces[$k] = $ns")]
+    ctx.require(used, "get_namespace does not memoise in context.namespaces (anchor)")
+    k = used[0]
+    kv = None
+    if isinstance(k, ast.Name):
+        kv = [s.value for s in keys if s.targets[0].id == k.id]
+        kv = kv[0] if kv else None
+    elif isinstance(k, ast.Tuple):
+        kv = k
+    parts = {src(e) for e in kv.elts} if kv is not None else set()
+    # the namespace that is built resolves `uri` against self._templateuri: the key must hold the uri and the calling namespace
+    built = [c for c in walk_func(gn) if isinstance(c, ast.Call) and dotted(c.func) == "TemplateNamespace"]
+    deps = set()
+    for c in built:
+        for a in list(c.args) + [kw.value for kw in c.keywords]:
+            for x in ast.walk(a):
+                if isinstance(x, ast.Name) and x.id in (uri, "self"):
+                    deps.add(x.id)
+    ok = uri in parts and ("self" not in deps or bool(parts & {"self", "self._templateuri", "self.uri"}))
+    ctx.check(ok, "get_namespace.key", db.where(kv) if kv is not None else db.where(gn), "get_namespace memoises under (%s) a namespace that depends on %s: the same relative uri asked for from templates in different directories yields the namespace resolved for the first of them" % (", ".join(sorted(parts)), sorted(deps)), "key holds the calling namespace and the uri")
+    ctx.check(P.has(gn, "if $k in self.context.namespaces:\n    return self.context.namespaces[$k]"), "get_namespace.read", db.where(gn), "the memo is not read under the key it is written under", "read and written under one key")
+    au = db.func("lookup.TemplateLookup.adjust_uri")
+    kk = [s for s in walk_func(au) if isinstance(s, ast.Assign) and isinstance(s.value, ast.Tuple) and isinstance(s.targets[0], ast.Name)]
+    okk = bool(kk) and {src(e) for e in kk[0].value.elts} == {pn(au, 1), pn(au, 2)}
+    subs = [n for n in walk_func(au) if isinstance(n, ast.Subscript) and dotted(n.value) == "self._uri_cache"]
+    okk = okk and bool(subs) and all(src(n.slice) == kk[0].targets[0].id for n in subs)
+    ctx.check(okk, "adjust_uri.key", db.where(au), "adjust_uri memoises under a key that is not (uri, base): the adjusted form of a relative uri is handed to callers in other directories", "key = (uri, relativeto) for every access")
+    # generated module: store and reads of its own <%namespace>s
+    S = sk.get(db)
+    stores, reads = set(), set()
+    for t_ in S.model.method_traces("write_namespaces"):
+        for e in _all_lines(t_.events):
+            lit = e[1].literal()
+            if "context.namespaces[" in lit:
+                inner = lit.split("context.namespaces[", 1)[1].split("]", 1)[0]
+                first = inner.strip("()").split(",")[0].strip()
+                (stores if "] = " in lit or "]=" in lit else reads).add(first)
+    ctx.check(bool(stores) and bool(reads) and stores == reads == {"__name__"}, "module-namespaces.key", "mako/codegen.py (write_namespaces)", "the generated module stores its namespaces under %s and reads them under %s" % (sorted(stores), sorted(reads)), "stored and read under (__name__, name)")
+
+
+@rule("C07.import-flag", min_instances=3)
+def import_flag(ctx):
+    """the flag that makes callables fetch import= names is raised by any <%namespace import=...> and never lowered again; it is raised before the render callables that test it are written"""
+    db = ctx.db
+    cg = db.mod("codegen")
+    sets = [n for n in ast.walk(cg.tree) if isinstance(n, ast.Assign) and isinstance(n.targets[0], ast.Attribute) and n.targets[0].attr == "has_ns_imports"]
+    ctx.require(sets, "no assignment of has_ns_imports in codegen.py (anchor)")
+    for s in sets:
+        f = getattr(s, "_func", None)
+        q = getattr(f, "_qual", "<module>")
+        loop = [a for a in ancestors(s) if isinstance(a, (ast.For, ast.While))]
+        if const(s.value) is False and not loop:
+            ctx.ok("init:" + q, db.where(s), "initialised False outside any loop")
+            continue
+        guard = [a for a in ancestors(s) if isinstance(a, ast.If)]
+        ok = const(s.value) is True and bool(guard) and P.has(guard[0].test, "'import' in $n.attributes")
+        ctx.check(ok, "raise:" + q, db.where(s), "has_ns_imports is assigned `%s`%s: a later <%%namespace> without import= lowers the flag again and the names imported by an earlier one are no longer fetched" % (src(s.value), " inside a loop" if loop else ""), "only ever raised, under `'import' in node.attributes`")
+    reads = [n for n in ast.walk(cg.tree) if (isinstance(n, ast.Attribute) and n.attr == "has_ns_imports" and isinstance(n.ctx, ast.Load)) or (isinstance(n, ast.Call) and dotted(n.func) == "getattr" and len(n.args) >= 2 and const(n.args[1]) == "has_ns_imports")]
+    ctx.check(len(reads) >= 2, "read", "mako/codegen.py", "the flag is no longer consulted when declaring variables", "%d reads" % len(reads))
+    # order in write_toplevel: namespaces are written before the render callables
+    wt = db.func("codegen._GenerateRenderMethod.write_toplevel")
+    init = db.func("codegen._GenerateRenderMethod.__init__")
+    wn = calls(wt, "self.write_namespaces")
+    tl = calls(init, "self.write_toplevel")
+    wr = calls(init, "self.write_render_callable")
+    ctx.check(bool(wn) and bool(tl) and bool(wr) and tl[0].lineno < wr[0].lineno, "raised-before-use", db.where(init), "write_namespaces (which raises the flag) does not precede write_render_callable (which tests it)", "namespaces written first")
